@@ -60,7 +60,7 @@ type tokSlot struct {
 // slots currently map to. It holds no policy knowledge.
 type hist struct {
 	e     *env
-	toks  [nTok]tokSlot
+	toks  []tokSlot
 	orgs  [nOrg]int64
 	teams [nTeam]int64
 	roles [nRole]int64
@@ -69,8 +69,11 @@ type hist struct {
 	vrng  *rand.Rand // token value material
 }
 
-func newHist(e *env, valueSeed uint64) *hist {
-	return &hist{e: e, vrng: rand.New(rand.NewPCG(valueSeed, 0x5eed))}
+func newHist(e *env, valueSeed uint64) *hist { return newHistN(e, valueSeed, nTok) }
+
+// newHistN allows more token slots than the default universe (pressure family).
+func newHistN(e *env, valueSeed uint64, tokens int) *hist {
+	return &hist{e: e, toks: make([]tokSlot, tokens), vrng: rand.New(rand.NewPCG(valueSeed, 0x5eed))}
 }
 
 func orMissing(id int64, slot int) int64 {
@@ -1071,12 +1074,27 @@ func runOverlap(c *vlib.Ctx, mode, path string, mut Op) {
 // ---------------------------------------------------------------------------
 
 func checkC20(c *vlib.Ctx) {
-	c.Rule("histories of RBAC/token mutations over 3 tokens x 2 orgs x 3 teams x 3 roles x 4 measurement permissions, run through the real AuthManager/RBACManager (direct SQLite mode and cluster mode = real ClusterFSM + Apply* callbacks); before and after every mutation the whole grid (token value x 4 databases x 4 measurements x 4 permissions, single and batched) is asked of the warm managers and compared with a cache-free RBACManager over the same database; a step is non-trivial when the mutation changed at least one expected decision")
+	c.Rule("histories of RBAC/token mutations over 3 tokens x 2 orgs x 3 teams x 3 roles x 4 measurement permissions, run through the real AuthManager/RBACManager (direct SQLite mode and cluster mode = real ClusterFSM + Apply* callbacks); before and after every mutation the whole grid (token value x 4 databases x 4 measurements x 4 permissions, single and batched) is asked of the warm managers and compared with a cache-free RBACManager over the same database; a step is non-trivial when the mutation changed at least one expected decision; plus a pressure family with RBACManagerConfig.MaxCacheSize in {1,2,4,8}, AuthManager cache size in {1,2,4,1000}, 8-16 tokens x 24 keys, where every check issued (bursts of other tokens' keys before each mutation, the target token's keys straight after it) is compared with the cache-free evaluator")
 	c.Assume("cache-free evaluator = a new RBACManager (empty caches) over the same *sql.DB, given the token row read by GetTokenByID; token validity = row exists, enabled, presented value is the current one (generator ground truth), not expired")
 	c.Assume("cluster mode: a synchronous single-node proposer stands in for hashicorp/raft (commit = immediate apply with increasing log index); FSM callbacks wired as in cmd/arc/main.go")
 	c.Assume("reference policy model (120 lines, written from the code's documented rules) is compared with the cache-free evaluator only; expiries are kept 5h away from now; cache TTLs are 6h so no verdict depends on a TTL")
 
 	if c.Replay != "" {
+		var pr pReplay
+		if err := vlib.LoadReplay(c.Replay, &pr); err == nil && len(pr.Case.Script) > 0 {
+			for i := 0; i < 300; i++ {
+				pend := runPressure(c, pr.Case, "replay")
+				for _, p := range pend {
+					c.Violation(p.sig, p.detail)
+				}
+				if len(pend) > 0 {
+					fmt.Printf("reproduced at repetition %d\n", i+1)
+					break
+				}
+			}
+			c.Floor(0)
+			return
+		}
 		var r c20Replay
 		if err := vlib.LoadReplay(c.Replay, &r); err != nil {
 			panic(err)
@@ -1106,6 +1124,7 @@ func checkC20(c *vlib.Ctx) {
 		mode, family, id string
 		ops              []Op
 		seed             uint64
+		pc               *pCase
 	}
 	var jobs []job
 	// enumerated (short, scenario-based) histories first: their replays are the
@@ -1113,7 +1132,7 @@ func checkC20(c *vlib.Ctx) {
 	enumLen := c.N(2, 3)
 	for _, mode := range []string{modeDirect, modeCluster} {
 		for i, ops := range enumerate(enumLen) {
-			jobs = append(jobs, job{mode, "enumerated", fmt.Sprintf("e%d", i), ops, uint64(i) + 1})
+			jobs = append(jobs, job{mode: mode, family: "enumerated", id: fmt.Sprintf("e%d", i), ops: ops, seed: uint64(i) + 1})
 		}
 	}
 	nRandom := c.N(100, 2000) // per mode
@@ -1121,9 +1140,23 @@ func checkC20(c *vlib.Ctx) {
 		rng := c.Rand("random-" + mode)
 		for i := 0; i < nRandom; i++ {
 			n := 12 + rng.IntN(29) // 12..40
-			jobs = append(jobs, job{mode, "random", fmt.Sprintf("r%d", i), genRandom(rng, n), rng.Uint64()})
+			jobs = append(jobs, job{mode: mode, family: "random", id: fmt.Sprintf("r%d", i), ops: genRandom(rng, n), seed: rng.Uint64()})
 		}
 	}
+	// bounded cache capacities, more tokens and keys than fit (see c20p.go)
+	nPressure := c.N(30, 450) // per mode and capacity
+	pSteps := c.N(25, 30)
+	for _, mode := range []string{modeDirect, modeCluster} {
+		rng := c.Rand("pressure-" + mode)
+		for _, size := range []int{1, 2, 4, 8} {
+			for i := 0; i < nPressure; i++ {
+				pc := genPressure(rng, mode, size, pSteps)
+				jobs = append(jobs, job{mode: mode, family: "pressure", id: fmt.Sprintf("p%d_%d", size, i), pc: &pc})
+			}
+		}
+	}
+	c.Extra("pressure_family", map[string]any{"cases_per_mode_and_capacity": nPressure, "rbac_max_cache_size": []int{1, 2, 4, 8},
+		"auth_max_cache_size": []int{1, 2, 4, 1000}, "tokens": "8..16", "keys_per_token": len(checkDBs) * len(pMeas) * len(pPerms), "mutation_steps_per_case": pSteps})
 	c.Extra("histories", map[string]int{"random_per_mode": nRandom, "enumerated_per_mode": len(enumerate(enumLen)), "enumerated_max_suffix_len": enumLen, "alphabet": len(alphabet())})
 
 	// overlap schedules use the process-global hook registry: run them alone first
@@ -1149,6 +1182,13 @@ func checkC20(c *vlib.Ctx) {
 			defer wg.Done()
 			for ji := range ch {
 				j := jobs[ji]
+				if j.pc != nil {
+					pend := runPressure(c, *j.pc, j.mode+j.id)
+					mu.Lock()
+					pending[ji] = pend
+					mu.Unlock()
+					continue
+				}
 				n, pend := runHistory(c, j.mode, j.family, j.ops, j.seed, j.family+j.id)
 				mu.Lock()
 				if n > 0 {
@@ -1176,5 +1216,5 @@ func checkC20(c *vlib.Ctx) {
 		hs := sha256.Sum256([]byte(vlib.JSON(j.ops)))
 		c.Sample(map[string]any{"mode": j.mode, "family": j.family, "ops": len(j.ops), "first_ops": j.ops[:min(6, len(j.ops))], "sha": hex.EncodeToString(hs[:6])})
 	}
-	c.Floor(c.N(1500, 30000))
+	c.Floor(c.N(2500, 40000))
 }
